@@ -480,7 +480,7 @@ def main(tier, seed, replay=None):
                 im = res["impl"][i] if i < len(res["impl"]) else []
                 if j < len(m) and j < len(im) and core(m[j]) == core(im[j]):
                     sig.setdefault(i, []).append(f)
-    groups = {}
+    groups, seen_sig = {}, set()
     for i, j, kind in failing:
         if kind == "known":
             known_hits[i] = j
@@ -502,7 +502,17 @@ def main(tier, seed, replay=None):
                "histories_failing_this_way": len(members),
                "seed": seed, "note": r["note"] or res["note"], "replay_cmd": "bin/check C15 --replay <this file>"}
         if kind == "impl!=spec":
-            obj["matches_model_without_repair"] = ["%s (repair: %s)" % (f, PATCH[f]) for f in like]
+            # on the minimised history: which single repair, switched off, reproduces the implementation?
+            like2 = []
+            for k, f in enumerate(FINDINGS):
+                fl = "".join("0" if x == k else "1" for x in range(3))
+                rr = execute([hmin], exe, "min", fl, want_impl=False)
+                if r["impl"] and rr["model_cfg"] and [core(x) for x in rr["model_cfg"][0]] == [core(x) for x in r["impl"][0]]:
+                    like2.append(f)
+            if tuple(like2) in seen_sig and like2:
+                continue            # same defect as a replay already written
+            seen_sig.add(tuple(like2))
+            obj["matches_model_without_repair"] = ["%s (repair: %s)" % (f, PATCH[f]) for f in like2]
             violation(PROP, obj)
         else:
             obj["broken"] = "correspondence: the extracted model (theories/CacheFile.v, all repairs on) disagrees with the map oracle; the theorems of props/C15.v no longer cover what is compared"
